@@ -57,4 +57,9 @@ KERNELS = [
     K("src_c09_flatten_cache_fits", ITC, r"bool flatten_iterator_t::cache_flatten\(tensor_size_t max_bytes\)\s*\{.*?if \(const auto isize = dataset\.columns\(\);\s*(.*?)\)\s*\{",
       [(r"static_cast<tensor_size_t>\(sizeof\(scalar_t\)\)", "scalar_bytes"), (r"samples\.size\(\)", "samples")],
       [("scalar_bytes", "Z"), ("samples", "Z"), ("isize", "Z"), ("max_bytes", "Z")], "c09", ["C09"]),
+    # ---- (extension: real-valued model) the divisors of the means --------------------------------------------------
+    K("src_c09_reduce_divisor", RED, SR + r".*?return \(accumulator0 /= (.*?)\);",
+      [], [("samples", "Z")], "c09", ["C09"]),
+    K("src_c09_grads_divisor", GBC, r"scalar_t grads_function_t::do_vgrad\(vector_cmap_t x, vector_map_t gx\) const\s*\{.*?gx = grads\.vector\(\) / static_cast<scalar_t>\((.*?)\);",
+      [(r"samples\.size\(\)", "samples")], [("samples", "Z")], "c09", ["C09"]),
 ]
